@@ -12,7 +12,7 @@ use futures_util::FutureExt as _;
 use yash_env::io::Fd;
 use yash_env::signal::Number;
 use yash_env::system::r#virtual::{FileBody, Inode, SIGINT, SIGTERM, SIGUSR1, SIGUSR2, VirtualSystem};
-use yash_env::system::{Close as _, Disposition, Read as _, SendSignal as _, Sigset as _, Write as _};
+use yash_env::system::{Close as _, Disposition, Fcntl as _, Read as _, SendSignal as _, Sigset as _, Write as _};
 
 /// bytes per model unit (= PIPE_BUF of the simulated system)
 pub const U: usize = yash_env::system::r#virtual::PIPE_BUF;
@@ -69,7 +69,7 @@ impl Ev {
         json!({"e": self.e, "t": self.t, "a": self.a, "b": self.b, "r": self.r, "x": self.x, "y": self.y, "z": self.z, "w": self.w})
     }
     pub fn is_ext(&self) -> bool {
-        matches!(self.e.as_str(), "xw" | "xr" | "xc" | "xs" | "xt")
+        matches!(self.e.as_str(), "xw" | "xr" | "xc" | "xs" | "xt" | "xn")
     }
 }
 
@@ -103,6 +103,8 @@ pub struct Ctx {
     pub counts: RefCell<BTreeMap<String, u64>>,
     /// kind of the operation each task is in (index = task id), "" if none
     pub curop: RefCell<Vec<String>>,
+    /// descriptor of that operation (0 if none)
+    pub curfd: RefCell<Vec<i64>>,
     /// set when the next sm/sa event is the first half of a set_disposition
     pub d_first: Cell<bool>,
     /// re-entrancy guard of the hook
@@ -127,6 +129,7 @@ impl Ctx {
             bad: RefCell::new(None),
             counts: RefCell::new(BTreeMap::new()),
             curop: RefCell::new(vec![String::new(); nt + 1]),
+            curfd: RefCell::new(vec![0; nt + 1]),
             d_first: Cell::new(false),
             in_hook: Cell::new(false),
         }
@@ -222,6 +225,7 @@ impl Ctx {
                 p.disposition(n) != Disposition::Default || p.blocked_signals().contains(n) == Ok(true)
             }
             "xt" => true,
+            "xn" => self.is_open(e.a) && !self.curfd.borrow().iter().any(|&fd| fd == e.a),
             _ => false,
         }
     }
@@ -253,6 +257,13 @@ impl Ctx {
                 let t = st.now.unwrap() + Duration::from_secs(e.a as u64);
                 st.advance_time(t);
                 Ok(())
+            }
+            "xn" => {
+                let fd = Fd(e.a as i32);
+                match self.vs.get_and_set_nonblocking(fd, true) {
+                    Ok(old) => self.vs.get_and_set_nonblocking(fd, !old).map(|_| ()).map_err(|e| format!("external fcntl: {e:?}")),
+                    Err(e) => Err(format!("external fcntl: {e:?}")),
+                }
             }
             k => Err(format!("unknown external event {k}")),
         }
@@ -295,10 +306,12 @@ impl Ctx {
             self.d_first.set(ev.r == "D");
             if (ev.t as usize) < self.curop.borrow().len() {
                 self.curop.borrow_mut()[ev.t as usize] = ev.r.clone();
+                self.curfd.borrow_mut()[ev.t as usize] = if matches!(ev.r.as_str(), "R" | "W" | "WA") { ev.a } else { 0 };
             }
         }
         if ev.e == "res" && (ev.t as usize) < self.curop.borrow().len() {
             self.curop.borrow_mut()[ev.t as usize].clear();
+            self.curfd.borrow_mut()[ev.t as usize] = 0;
         }
         let ev = self.push(ev);
         self.count(&format!("ev:{}", ev.e));
@@ -368,12 +381,13 @@ impl Ctx {
     /// a random external event that is possible now
     pub fn random_ext(&self, rng: &mut StdRng) -> Option<Ev> {
         for _ in 0..6 {
-            let k = rng.gen_range(0..10);
+            let k = rng.gen_range(0..11);
             let e = match k {
                 0..=2 => Ev::new("xw", 0, rng.gen_range(1..=self.np as i64), rng.gen_range(1..=2), ""),
                 3 => Ev::new("xr", 0, rng.gen_range(1..=self.np as i64), rng.gen_range(1..=2), ""),
                 4 => Ev::new("xc", 0, rng.gen_range(3..3 + 2 * self.np as i64), 0, ""),
                 5..=7 => Ev::new("xs", 0, rng.gen_range(1..=self.ns as i64), 0, ""),
+                10 => Ev::new("xn", 0, rng.gen_range(3..3 + 2 * self.np as i64), 0, ""),
                 _ => Ev::new("xt", 0, rng.gen_range(1..=2), 0, ""),
             };
             if self.ext_ok(&e) {
